@@ -168,3 +168,153 @@ Example ex_pairs :
   map (fun k => pair_of (crash_image w sched k (init [(10, 1); (20, 101)] progs)) 10 20) (seq 0 8)
   = [(1, 101); (1, 101); (1, 101); (1, 101); (1, 101); (3, 103); (3, 103); (3, 103)].
 Proof. vm_compute. reflexivity. Qed.
+
+(* ------------------------------------------------------------------ *)
+(* The executable statement of the property (Corr.oracle) holds on the model's own
+   observations of every sequential history. *)
+From Dolt Require Import C20.Corr C21.Corr.
+
+Lemma pair_eqb_refl p : pair_eqb p p = true.
+Proof. unfold pair_eqb. rewrite !N.eqb_refl. reflexivity. Qed.
+
+Lemma report_cws r wn e p n nw f g : report (OCommitWS r wn e p n nw f) g = g.
+Proof. destruct g; reflexivity. Qed.
+
+Lemma seq_walk_model w : forall acts cfg m hist,
+  J acts cfg m hist ->
+  seq_walk acts (snd (run_acts w acts cfg)) (roots_of w acts cfg) m = true.
+Proof.
+  induction acts as [|a t IH]; intros cfg m hist HJ; [reflexivity|].
+  destruct a as [c|c o].
+  - cbn [run_acts roots_of seq_walk]. destruct (rebase_summary w c t cfg m hist HJ) as [G HJ'].
+    rewrite G, refs_eqb_refl. cbn [andb]. apply (IH _ m hist). exact HJ'.
+  - cbn [run_acts roots_of].
+    remember (run w (call_steps c) cfg) as cfg' eqn:Hcfg'.
+    destruct (run_acts w t cfg') as [cf rs] eqn:R. cbn [fst snd seq_walk].
+    destruct (call_summary w c o t cfg m hist HJ cfg' _ Hcfg' eq_refl) as [[T [G J']]|[T [G [E J']]]].
+    + apply andb_true_iff in T as [T _]. rewrite T.
+      pose proof (IH cfg' _ _ J') as IH'. rewrite R in IH'. cbn [snd] in IH'. rewrite G. rewrite IH', andb_true_r.
+      destruct o; cbn [cws_names]; try reflexivity.
+      destruct (r =? wn) eqn:En; [reflexivity|]. apply N.eqb_neq in En. cbn [orb].
+      rewrite (installed_pair m r wn _ En); [apply pair_eqb_refl|]. cbn [is_cws]. rewrite !N.eqb_refl. reflexivity.
+    + pose proof (IH cfg' _ _ J') as IH'. rewrite R in IH'. cbn [snd] in IH'. rewrite G, IH', andb_true_r.
+      destruct (result_eqb (last_res (c_done (g_clients cfg' c))) ROk) eqn:Er; [|apply refs_eqb_refl].
+      apply result_eqb_eq in Er. rewrite Er in E.
+      destruct o; cbn [cws_names]; try reflexivity.
+      rewrite seq_explained_not_ok in E; [discriminate|]. intros g. apply report_cws.
+Qed.
+
+Lemma pair_in_app_l p a b : pair_in p a = true -> pair_in p (a ++ b) = true.
+Proof. unfold pair_in. rewrite existsb_app. intros ->. reflexivity. Qed.
+
+Lemma pair_in_app_r p a b : pair_in p b = true -> pair_in p (a ++ b) = true.
+Proof. unfold pair_in. rewrite existsb_app. intros ->. apply orb_true_r. Qed.
+
+Lemma pairs_model w r wn : r <> wn -> forall acts cfg m hist allowed,
+  J acts cfg m hist ->
+  only_cws_b r wn (ops_of acts) = true ->
+  pair_in (pair_of m r wn) allowed = true ->
+  let all := allowed ++ installed_ok r wn (ops_of acts) (snd (run_acts w acts cfg)) in
+  forallb (fun x => pair_in (pair_of x r wn) all) (roots_of w acts cfg) = true
+  /\ pair_in (pair_of (g_refs (fst (run_acts w acts cfg))) r wn) all = true.
+Proof.
+  intros Hne. induction acts as [|a t IH]; intros cfg m hist allowed HJ Honly Hin; cbn zeta.
+  - cbn. rewrite app_nil_r. destruct HJ as [Hm _]. rewrite Hm. auto.
+  - destruct a as [c|c o].
+    + cbn [run_acts roots_of ops_of forallb]. destruct (rebase_summary w c t cfg m hist HJ) as [G HJ'].
+      destruct (IH _ m hist allowed HJ' Honly Hin) as [I1 I2]. rewrite G.
+      rewrite I1, I2, andb_true_r. split; [|reflexivity]. apply pair_in_app_l. exact Hin.
+    + cbn [run_acts roots_of ops_of forallb].
+      remember (run w (call_steps c) cfg) as cfg' eqn:Hcfg'.
+      destruct (run_acts w t cfg') as [cf rs] eqn:R. cbn [fst snd installed_ok].
+      cbn [only_cws_b ops_of forallb] in Honly. apply andb_true_iff in Honly as [Ho Honly].
+      set (piece := if is_cws r wn o && result_eqb (last_res (c_done (g_clients cfg' c))) ROk then [installed o] else []).
+      assert (Hnext : pair_in (pair_of (g_refs cfg') r wn) (allowed ++ piece) = true
+                      /\ exists m' hist', J t cfg' m' hist' /\ g_refs cfg' = m').
+      { destruct (call_summary w c o t cfg m hist HJ cfg' _ Hcfg' eq_refl) as [[T [G J']]|[T [G [E J']]]].
+        - split; [|eauto]. apply andb_true_iff in T as [T _]. rewrite G.
+          destruct (is_cws r wn o) eqn:Ec.
+          + apply pair_in_app_r. unfold piece. rewrite T. cbn [andb]. unfold pair_in. cbn [existsb].
+            rewrite (installed_pair m r wn o Hne Ec), pair_eqb_refl. reflexivity.
+          + apply pair_in_app_l. unfold pair_of.
+            destruct (touches o r) eqn:T1; [rewrite ?Ec in Ho; cbn in Ho; discriminate|].
+            destruct (touches o wn) eqn:T2; [rewrite ?Ec in Ho; cbn in Ho; discriminate|].
+            rewrite !effect_frame by assumption. exact Hin.
+        - split; [|eauto]. rewrite G. apply pair_in_app_l. exact Hin. }
+      destruct Hnext as [Hp [m' [hist' [J' G']]]].
+      rewrite <- G' in *.
+      destruct (IH cfg' _ hist' (allowed ++ piece) J' Honly Hp) as [I1 I2].
+      rewrite R in I1, I2. cbn [fst snd] in I1, I2. rewrite <- app_assoc in I1, I2.
+      fold piece. rewrite I1, I2, andb_true_r. split; [|reflexivity].
+      rewrite app_assoc. apply pair_in_app_l. exact Hp.
+Qed.
+
+Lemma pairs_ok_model (i : input) (r wn : name) :
+  i_conc i = false -> pairs_ok i (model_obs i) r wn = true.
+Proof.
+  intros Hc. unfold pairs_ok.
+  destruct (negb (r =? wn) && only_cws_b r wn (ops_of (i_acts i))) eqn:E; [|reflexivity].
+  apply andb_true_iff in E as [E1 E2]. apply negb_true_iff in E1. apply N.eqb_neq in E1.
+  unfold model_obs, C20.Corr.model_obs. rewrite Hc. cbn [o_base o_roots].
+  pose proof (pairs_model (i_world i) r wn E1 (i_acts i) (init (i_m0 i) (progs_of (i_acts i))) (i_m0 i) []
+                [pair_of (i_m0 i) r wn] (init_J _ _) E2) as H.
+  destruct (run_acts (i_world i) (i_acts i) (init (i_m0 i) (progs_of (i_acts i)))) as [cfg rs].
+  cbn [o_results o_final fst snd] in *.
+  destruct H as [H1 H2]; [unfold pair_in; cbn [existsb]; rewrite pair_eqb_refl; reflexivity|].
+  cbn [forallb]. cbn [app] in H1, H2. rewrite H1, H2. reflexivity.
+Qed.
+
+(* Excluded class: none for sequential histories (the registered finding needs two concurrent
+   byte-identical calls); concurrent batches have no single model observation. *)
+Theorem oracle_model_obs :
+  forall i : input, i_conc i = false -> oracle i (model_obs i) = true.
+Proof.
+  intros i Hc. unfold oracle.
+  rewrite !pairs_ok_model by exact Hc.
+  assert (Hb : C20.Corr.oracle i (o_base (model_obs i)) = true).
+  { unfold model_obs. cbn [o_base]. apply C20.Proofs.oracle_model_obs. exact Hc. }
+  rewrite Hb, Hc. cbn [andb].
+  unfold model_obs, C20.Corr.model_obs. rewrite Hc. cbn [o_base o_roots].
+  pose proof (seq_walk_model (i_world i) (i_acts i) (init (i_m0 i) (progs_of (i_acts i))) (i_m0 i) [] (init_J _ _)) as H.
+  destruct (run_acts (i_world i) (i_acts i) (init (i_m0 i) (progs_of (i_acts i)))) as [cfg rs].
+  cbn [o_results snd] in *. exact H.
+Qed.
+
+(* ------------------------------------------------------------------ *)
+(* Bridge to the byte-level crash theorems (C02 manifest rename / C03 journal recovery).
+   Those theorems say: what recovery returns after a crash at ANY byte of the root write is
+   the root written by a prefix of the sequence of root writes (C03_crash_recovery: the image
+   parses as the longest fitting prefix of the records, the recovered root is its last root
+   record; C02: the manifest is the old or the new file).  Root writes are the successful
+   CASes, so "a prefix of the root writes" is [replay w m0 (firstn j log)].  The C03/C02
+   statement enters here as the hypothesis [Hrec] (the two developments use byte-level
+   models of their own and are not Required); with it, pair atomicity holds at every
+   byte-level crash point, not only between steps. *)
+Lemma In_firstn {A} (x : A) n l : In x (firstn n l) -> In x l.
+Proof. intros H. rewrite <- (firstn_skipn n l). apply in_or_app. left. exact H. Qed.
+
+Theorem crash_recovered_pair_atomic :
+  forall (w : world) (m0 : refs) (progs : cid -> list op) (sched : list (cid * label)) (r wn : name),
+    r <> wn -> only_cws r wn progs ->
+    forall (k : nat) (recovered : refs),
+      let cfg := run w (firstn k sched) (init m0 progs) in
+      forall Hrec : exists j : nat, recovered = replay w m0 (firstn j (g_log cfg)),
+      pair_from m0 (g_log cfg) r wn (pair_of recovered r wn).
+Proof.
+  intros w m0 progs sched r wn Hne Honly k recovered cfg [j Hj]. subst recovered.
+  destruct (run_sub w progs (firstn k sched) _ (init_sub progs m0)) as [H1 _]. fold cfg in H1.
+  assert (Hp : pair_from m0 (firstn j (g_log cfg)) r wn (pair_of (replay w m0 (firstn j (g_log cfg))) r wn)).
+  { apply replay_pair; [exact Hne|]. intros c o Hin Ht. apply (Honly c); [|exact Ht].
+    apply H1. eapply In_firstn. exact Hin. }
+  destruct Hp as [Hp | [c [o [Hin Hp]]]]; [left; exact Hp|].
+  right. exists c, o. split; [eapply In_firstn; exact Hin | exact Hp].
+Qed.
+
+(* the hypothesis is satisfiable: the root persisted at a step boundary is the replay of the whole log *)
+Lemma crash_image_is_replay w m0 progs sched k :
+  let cfg := run w (firstn k sched) (init m0 progs) in
+  crash_image w sched k (init m0 progs) = replay w m0 (firstn (length (g_log cfg)) (g_log cfg)).
+Proof.
+  cbn zeta. rewrite firstn_all. unfold crash_image.
+  destruct (update_linearizable w m0 progs (firstn k sched)) as [H _]. exact H.
+Qed.
